@@ -217,6 +217,12 @@ theorem lastNode1_notStep (s : Stmt) (y : Src) (hfr : FragT s = true) (h : EmbSr
     obtain ⟨p', q, l, he, _⟩ := he
     cases he
     rw [tgtC_lower1_simple]; exact notStep_of_cls _ _ (by simp [Node.cls])
+  | mcall o m as =>
+    obtain ⟨⟨sz, off, code⟩, p, rfl, _, he, _⟩ := h
+    simp only [EmbS] at he
+    obtain ⟨p', q, q', ps, rc, ops, nm, _, he, _⟩ := he
+    cases he
+    rw [tgtC_lower1_simple]; exact notStep_of_cls _ _ (by simp [Node.cls])
   | _ => obtain ⟨sm, p, rfl, _, he, _⟩ := h; simp [EmbS] at he
 
 theorem lastStepLike_cons (s : Stmt) (ss : List Stmt) (h : ss ≠ []) : lastStepLike (s :: ss) = lastStepLike ss := by
@@ -381,7 +387,14 @@ theorem class1 : (s : Stmt) → (x : Src) → FragT s = true → EmbSrc1 s x →
     cases he
     simp only [tgtL1, lastOr]
     exact Or.inr ⟨_, _, rfl, Or.inl (by simp [Node.cls])⟩
-  | .mcall .., x, _, h, _, _, _, _, _ => by obtain ⟨sm, p, rfl, ho, he, hp⟩ := h; exact absurd he (by simp [EmbS])
+  | .mcall o m as, x, _, h, ps, prev, o', _, _ => by
+    obtain ⟨⟨sz, off, code⟩, p, rfl, ho, he, hpl⟩ := h
+    refine ⟨ok_simple.2 ⟨ho, plain_simpleCode' hpl⟩, ?_⟩
+    simp only [EmbS] at he
+    obtain ⟨p', q, q', ps', rc, ops, nm, _, he, _⟩ := he
+    cases he
+    simp only [tgtL1, lastOr]
+    exact Or.inr ⟨_, _, rfl, Or.inl (by simp [Node.cls])⟩
   | .tell .., x, _, h, _, _, _, _, _ => by obtain ⟨sm, p, rfl, ho, he, hp⟩ := h; exact absurd he (by simp [EmbS])
   | .repeatIn .., x, _, h, _, _, _, _, _ => by obtain ⟨sm, p, rfl, ho, he, hp⟩ := h; exact absurd he (by simp [EmbS])
   | .exitRepeat, x, _, h, _, _, _, _, _ => by obtain ⟨sm, p, rfl, ho, he, hp⟩ := h; exact absurd he (by simp [EmbS])
